@@ -131,9 +131,13 @@ pub fn state_line(s: &McState, verbose: bool) -> String {
     }
 }
 
-pub fn mk_config(ps: &PredSpec, vm: &str, debug: bool, rec: Recorder, verbose: bool) -> StrategyConfig {
+pub fn mk_config(ps: &PredSpec, vm: &str, debug: bool, rec: Recorder, verbose: bool, fuel: u64) -> StrategyConfig {
     let inv_spec = ps.inv.clone();
     let invariant: InvariantFn = Box::new(move |s: &McState| {
+        // the model's fuel = number of check_state calls; stop the real run at the same point
+        if rec.borrow().len() as u64 >= fuel {
+            return Err("FUEL".to_string());
+        }
         rec.borrow_mut().push(state_line(s, verbose));
         let sp: Vec<&str> = inv_spec.iter().map(|x| x.as_str()).collect();
         match sp.as_slice() {
@@ -360,7 +364,7 @@ pub fn run(sc: &Scenario) -> String {
                 let strat = t.tok().to_string();
                 let vm = t.tok().to_string();
                 let debug = t.bool();
-                let _fuel = t.u64();
+                let fuel = t.u64();
                 writeln!(out, "{}", kw).unwrap();
                 if checker.is_none() {
                     let sys = spec.build(12345);
@@ -369,7 +373,7 @@ pub fn run(sc: &Scenario) -> String {
                 }
                 let mc = &mut checker.as_mut().unwrap().1;
                 let rec: Recorder = Rc::new(RefCell::new(vec![]));
-                let cfg = mk_config(&ps, &vm, debug, rec.clone(), verbose);
+                let cfg = mk_config(&ps, &vm, debug, rec.clone(), verbose, fuel);
                 let cbops = cb.clone();
                 let res = std::panic::catch_unwind(std::panic::AssertUnwindSafe(|| {
                     if kw == "RUN" {
@@ -395,8 +399,11 @@ pub fn run(sc: &Scenario) -> String {
                         return out;
                     }
                     Ok(r) => {
-                        for (j, l) in rec.borrow().iter().enumerate() {
-                            writeln!(out, "CHECK {} {}", j, l).unwrap();
+                        let out_of_fuel = matches!(&r, Err(e) if e.message() == "FUEL");
+                        if !out_of_fuel {
+                            for (j, l) in rec.borrow().iter().enumerate() {
+                                writeln!(out, "CHECK {} {}", j, l).unwrap();
+                            }
                         }
                         match r {
                             Ok(stats) => {
@@ -412,6 +419,9 @@ pub fn run(sc: &Scenario) -> String {
                                 ds.sort();
                                 writeln!(out, "COLLECTED {} {}", ds.len(), ds.join(" ")).unwrap();
                                 last_collected = stats.collected_states;
+                            }
+                            Err(_) if out_of_fuel => {
+                                writeln!(out, "RESULT FUEL").unwrap();
                             }
                             Err(e) => {
                                 let m = if e.message() == "nothing left to do to reach the goal" {
